@@ -308,16 +308,20 @@ pub uninterp spec fn list_empty(b: Bdd, defs: Defs) -> bool;
 pub uninterp spec fn mapping_empty(b: Bdd, defs: Defs) -> bool;
 pub uninterp spec fn map_empty(b: Bdd, defs: Defs) -> bool;
 
+// #unless-take fn dnf_mapping_is_empty
 #[verifier::external_body]
 fn dnf_mapping_is_empty(bdd: &Rc<Bdd>, ctx: &mut SemTypeContext) -> (r: Result<IsEmptyStatus>)
     ensures ctx_defs(*final(ctx)) == ctx_defs(*old(ctx)),
             r is Ok ==> (r->Ok_0 == IsEmptyStatus::IsEmpty) == mapping_empty(**bdd, ctx_defs(*old(ctx))),
 { unimplemented!() }
+// #end
+// #unless-take fn dnf_map_is_empty
 #[verifier::external_body]
 fn dnf_map_is_empty(bdd: &Rc<Bdd>, ctx: &mut SemTypeContext) -> (r: Result<IsEmptyStatus>)
     ensures ctx_defs(*final(ctx)) == ctx_defs(*old(ctx)),
             r is Ok ==> (r->Ok_0 == IsEmptyStatus::IsEmpty) == map_empty(**bdd, ctx_defs(*old(ctx))),
 { unimplemented!() }
+// #end
 // #unless-take fn list_is_empty
 #[verifier::external_body]
 fn list_is_empty(bdd: &Rc<Bdd>, builder: &mut SemTypeContext) -> (r: Result<IsEmptyStatus>)
